@@ -110,3 +110,46 @@ func VH_C13_movetime_budget() {
 	limit := s.setupTimeControl(p, sl)
 	vxAssert(limit <= sl.MoveTime && limit >= 0, "movetime.budget<=movetime")
 }
+
+// Limits are per search: a second search on the same Search instance (depth limit only, no stop
+// request) must not be stopped by anything the first search left behind - its node limit, its time
+// budget, its stop flag. Both searches run through the real run() / setupSearchLimits /
+// stopConditions; iterativeDeepening is replaced by a probe that visits an arbitrary number of nodes
+// and asks stopConditions().
+func VH_C13_second_search_uses_only_its_own_limits() {
+	vxOpt("go", "inline")
+	vxOpt("replay", "abstract")
+	vxUnwind(4)
+	s := vxLifecycleSearch()
+	results, sent := 0, false
+	vxLifecycleStubs(s, &results, &sent)
+	second, stoppedByLeftover := false, false
+	vxStub(vxIterDeep, func(ss *Search, p *position.Position) *Result {
+		if !second {
+			ss.nodesVisited = vxU64("first.nodes-visited")
+			ss.stopFlag = vxBool("first.stopped")
+		} else {
+			ss.nodesVisited = vxU64("second.nodes-visited")
+			if ss.stopConditions() {
+				stoppedByLeftover = true
+			}
+		}
+		return &Result{}
+	})
+	p := position.VxPosPhaseStm(0, White)
+	sl1 := &Limits{Depth: 1, Nodes: vxU64("first.node-limit"), TimeControl: vxBool("first.time-control")}
+	sl1.MoveTime = time.Duration(vxI64("first.movetime"))
+	vxAssume(int64(sl1.MoveTime) > 0 && int64(sl1.MoveTime) < int64(1)<<44)
+	s.searchLimits = sl1
+	s.initSemaphore.TryAcquire(1)
+	s.run(p, sl1)
+	second = true
+	sl2 := &Limits{Depth: 5}
+	s.searchLimits = sl2
+	s.initSemaphore.TryAcquire(1)
+	s.run(p, sl2)
+	vxAssert(results == 2, "both-searches-deliver-a-result")
+	vxAssert(!stoppedByLeftover, "second-search-not-stopped-by-limits-of-the-first")
+	vxAssert(s.timeLimit == 0 && s.extraTime == 0, "second-search-has-no-time-budget-left-over")
+	vxReach("c13.second-search.end")
+}
